@@ -66,7 +66,7 @@ pub fn gen_pool(rng: &mut StdRng, extremes: bool) -> Case {
         return Case { info, amp, decs, res };
     }
     let n = rng.gen_range(2..=4usize);
-    let dec_choices: &[u8] = if extremes && rng.gen_range(0..4) == 0 { &[0, 1, 2, 6, 18] } else { &[6, 8, 12, 18] };
+    let dec_choices: &[u8] = if extremes && rng.gen_range(0..4) == 0 { &[0, 1, 2, 6, 18, 19, 24] } else { &[6, 8, 12, 18] };
     let decs: Vec<u8> = (0..n).map(|_| *dec_choices.choose(rng).unwrap()).collect();
     let maxd = *decs.iter().max().unwrap() as u32;
     // pool creation accepts every amplification above zero
